@@ -1688,6 +1688,8 @@ int QSexact_solver (mpq_QSdata * p_mpq,
 		switch (*status)
 		{
 		case QS_LP_OPTIMAL:
+			if (basis)
+				mpq_QSfree_basis (basis);	/* left over from an earlier stage */
 			basis = mpf_QSget_basis (p_mpf);
 			x_mpf = mpf_EGlpNumAllocArray (p_mpf->qslp->ncols);
 			y_mpf = mpf_EGlpNumAllocArray (p_mpf->qslp->nrows);
@@ -1739,6 +1741,8 @@ int QSexact_solver (mpq_QSdata * p_mpq,
 			else
 			{
 				MESSAGE (msg_lvl, "Retesting solution in exact arithmetic");
+				if (basis)
+					mpq_QSfree_basis (basis);	/* left over from an earlier stage */
 				basis = mpf_QSget_basis (p_mpf);
 				EGcallD(QSexact_basis_status (p_mpq, status, basis, msg_lvl, &simplexalgo));
 #if 0
